@@ -311,7 +311,7 @@ namespace ip {
 
 		// this was initiated at least one 3-way handshake ago.
 		// we can pick it up and consider it connected
-		if (m_remote_endpoint) *m_remote_endpoint = c->ep[0];
+		if (m_remote_endpoint) *m_remote_endpoint = c->visible_ep[0];
 		m_remote_endpoint = nullptr;
 
 		boost::system::error_code ec;
